@@ -9,6 +9,9 @@ ones are skipped and counted):
   look    alternatives that need k = 2..4 through different non-terminals          -> C07, C01
   lr      left-recursive / nullable / start-symbol variants for lalr(1), recursive
           references to the start symbol with decorations                          -> C12, C03
+  scatter alternatives of one non-terminal written as SEPARATE productions that are not adjacent
+          in the text (PAR allows a non-terminal to be defined in several places), for LL(k) and
+          lalr(1); start symbol with several such alternatives                      -> C12, C03, C09, C01
 """
 import os, random
 
@@ -248,13 +251,66 @@ def gen_names(rnd, name, lalr=False):
     return header(name, lalr) + "\n".join(out) + "\n"
 
 
+def gen_scatter(rnd, name, lalr=False):
+    """S and 1..2 helper non-terminals; every alternative starts with its own terminal (so the
+    grammar is LL(1) and LALR(1) by construction, unless a recursion variant is chosen); each
+    alternative is written as a production of its own and the productions are shuffled."""
+    pool = list(TERMS)
+    rnd.shuffle(pool)
+    nxt = [0]
+
+    def fresh():
+        t = pool[nxt[0] % len(pool)]
+        nxt[0] += 1
+        return lit(rnd, t)
+
+    nts = ["N%d" % i for i in range(rnd.randint(1, 2))]
+    prods = []
+    n_s = rnd.randint(2, 3)
+    recursive = rnd.random() < 0.25
+    for i in range(n_s):
+        body = [fresh()]
+        for _ in range(rnd.randint(0, 2)):
+            r = rnd.random()
+            body.append(rnd.choice(nts) + deco(rnd, True) if r < 0.5 else fresh())
+        if recursive and i == n_s - 1:
+            body.append("S" + rnd.choice(["", "^"]))
+        prods.append("S: %s;" % " ".join(body))
+    for nt in nts:
+        for i in range(rnd.randint(1, 3)):
+            body = [fresh()] + [fresh() for _ in range(rnd.randint(0, 1))]
+            prods.append("%s: %s;" % (nt, " ".join(body)))
+        if rnd.random() < 0.2:
+            prods.append("%s: ;" % nt)
+    # make sure every helper is used (parol rejects unreachable non-terminals)
+    text = " ".join(prods)
+    for nt in nts:
+        if (" " + nt) not in text.replace(nt + ":", ""):
+            prods.append("S: %s %s;" % (fresh(), nt))
+    mode = rnd.randint(0, 2)
+    if mode == 0:
+        rnd.shuffle(prods)
+    elif mode == 1:
+        # first start alternative alone on top, the others at the very end
+        s_p = [x for x in prods if x.startswith("S:")]
+        o_p = [x for x in prods if not x.startswith("S:")]
+        prods = s_p[:1] + o_p + s_p[1:]
+    else:
+        s_p = [x for x in prods if x.startswith("S:")]
+        o_p = [x for x in prods if not x.startswith("S:")]
+        rnd.shuffle(o_p)
+        prods = o_p[:1] + s_p[:1] + o_p[1:] + s_p[1:]
+    return header(name, lalr) + "\n".join(prods) + "\n"
+
+
 def generate(out_dir, seed, counts):
     """counts: dict family -> n.  Returns list of file paths."""
     os.makedirs(out_dir, exist_ok=True)
     files = []
     fam = {"ebnf": gen_ebnf, "prefix": gen_prefix, "look": gen_look, "lr": gen_lr,
            "ebnf_lr": lambda r, n: gen_ebnf(r, n, lalr=True), "names": gen_names, "look2": gen_look2,
-           "names_lr": lambda r, n: gen_names(r, n, lalr=True)}
+           "names_lr": lambda r, n: gen_names(r, n, lalr=True),
+           "scatter": gen_scatter, "scatter_lr": lambda r, n: gen_scatter(r, n, lalr=True)}
     for f, n in counts.items():
         for i in range(n):
             rnd = random.Random("%s-%s-%d" % (seed, f, i))
